@@ -10,6 +10,8 @@ use serde_json::json;
 use std::path::PathBuf;
 use std::time::Duration;
 
+mod climodel;
+
 fn write_lcov(rs: &[(PathBuf, PathBuf, CovResult)], path: &std::path::Path) -> Vec<u8> {
     output_lcov(rs, Some(path), false);
     std::fs::read(path).unwrap()
@@ -136,6 +138,8 @@ pub fn run(rep: &mut Report) {
 
 fn cli_chains(rep: &mut Report, rng: &mut Rng) {
     let n = rep.budget(40, 15);
+    // (request, real report, case) of every run that the model of one run (`Cli.run`) covers
+    let mut cli_reqs: Vec<(String, String, serde_json::Value)> = vec![];
     for c in 0..n {
         let dir = rep.workdir.join(format!("chain{}", c));
         let _ = std::fs::remove_dir_all(&dir);
@@ -214,6 +218,31 @@ fn cli_chains(rep: &mut Report, rng: &mut Rng) {
                 ok = false;
                 break;
             }
+            // the same run through the Lean model (lcov inputs only: round 0 may hold JaCoCo files)
+            let model_inputs: Option<Vec<Vec<u8>>> = if round == 0 {
+                if inputs.iter().all(|i| i.format == "Info") {
+                    Some(inputs.iter().map(|i| i.bytes.clone()).collect())
+                } else {
+                    None
+                }
+            } else {
+                Some(vec![reports[round - 1].clone().into_bytes()])
+            };
+            if let Some(ins) = model_inputs {
+                let ccfg = climodel::CliCfg {
+                    branch: true,
+                    source_dir: if used.contains(&"-s") { Some(src.canonicalize().unwrap().to_str().unwrap().to_string()) } else { None },
+                    prefix_dir: if used.contains(&"-p") { Some("src".to_string()) } else { None },
+                    ignore: if used.contains(&"--ignore") { vec!["lib/*".to_string()] } else { vec![] },
+                    keep: if used.contains(&"--keep-only") { vec!["*.c".to_string()] } else { vec![] },
+                    ignore_not_existing: used.contains(&"--ignore-not-existing"),
+                    filter: if used.contains(&"--filter") { Some(true) } else { None },
+                };
+                let req = climodel::cli_request(&ccfg, &dir.canonicalize().unwrap(), &ins);
+                rep.count(&format!("cli.model.round{}", round));
+                cli_reqs.push((req, out.stdout.clone(), json!({"op": "cli.run", "round": round, "opts": opts,
+                    "inputs_hex": ins.iter().map(|b| hex(b)).collect::<Vec<_>>()})));
+            }
             let name = format!("r{}.info", round + 1);
             std::fs::write(dir.join(&name), &out.stdout).unwrap();
             prev_args = vec![name];
@@ -240,6 +269,21 @@ fn cli_chains(rep: &mut Report, rng: &mut Rng) {
                 json!({"op": "chain", "opts": opts, "r1": reports[0], "r2": reports[1], "r3": reports[2],
                     "inputs": inputs.iter().map(|i| json!({"name": i.name, "hex": hex(&i.bytes)})).collect::<Vec<_>>()}),
             );
+        }
+    }
+    // ---- tie of the model of one run to the real binary ---------------------------------------------
+    let reqs: Vec<String> = cli_reqs.iter().map(|x| x.0.clone()).collect();
+    let answers = run_model(&reqs, &rep.workdir, "cli");
+    for (i, (req, real, case)) in cli_reqs.iter().enumerate() {
+        rep.case(&format!("cli.run {}", fnv64(req.as_bytes())), true);
+        if let Some(what) = climodel::compare(&answers[i], real) {
+            rep.disagreements_checked += 1;
+            let mut cj = case.clone();
+            cj["request"] = json!(req);
+            cj["real"] = json!(real);
+            cj["model"] = json!(answers[i]);
+            rep.fail("disagreement", None,
+                format!("a grcov run differs from the Lean model Cli.run (theorems C05_cli_* / C06_cli_* no longer transfer): {}", what), cj);
         }
     }
 }
